@@ -480,11 +480,11 @@ impl C06 {
 impl Monitor for C06 {
     fn engines(&self, tier: Tier) -> Vec<(&'static str, u64)> {
         vec![
-            ("eth", tier.pick(200_000, 2_500_000)),
-            ("ip", tier.pick(200_000, 2_500_000)),
-            ("siblings", tier.pick(200_000, 2_500_000)),
-            ("sweep", tier.pick(2_000, 20_000)),
-            ("read", tier.pick(600_000, 6_000_000)),
+            ("eth", tier.pick(2000000, 250000000)),
+            ("ip", tier.pick(2000000, 250000000)),
+            ("siblings", tier.pick(2000000, 250000000)),
+            ("sweep", tier.pick(20000, 2000000)),
+            ("read", tier.pick(6000000, 600000000)),
         ]
     }
 
